@@ -515,6 +515,41 @@ class ContractDB:
         return it.exc_isinstance(exc, q)
 
     # ------------------------------------------------------------------ effects of calls inside loops
+    def static_type(self, it, e, fr):
+        """Static type of a receiver expression built from locals, fields and subscripts (None: unknown).
+        obj[...] on an object with a contract for __getitem__ has that contract's return type."""
+        from .tys import TSeq as _S, TDict as _D
+        try:
+            if isinstance(e, ast.Name):
+                v = fr.env.get(e.id)
+                return it.val_ty(v) if isinstance(v, (SV, PyList, PyTuple)) else None
+            if isinstance(e, ast.Attribute):
+                b = self.static_type(it, e.value, fr)
+                if isinstance(b, TOpt):
+                    b = b.inner
+                if isinstance(b, TObj):
+                    owner = it.field_owner(b.cls, e.attr)
+                    return it.field_ty(owner, e.attr) if owner else None
+                if isinstance(b, TRec):
+                    return b.fty(e.attr)
+                return None
+            if isinstance(e, ast.Subscript):
+                b = self.static_type(it, e.value, fr)
+                if isinstance(b, _S):
+                    return b.elem
+                if isinstance(b, _D):
+                    return b.v
+                if isinstance(b, TObj):
+                    m = self.w.find_method(b.cls, "__getitem__")
+                    if m is None:
+                        return None
+                    con = self.contract_for(m, b.cls)
+                    return self.return_type(it, con, m) if con is not None and not con.inline else None
+                return None
+        except Exception:
+            return None
+        return None
+
     def call_effects(self, it, calls, fr) -> set:
         """Field names possibly written by the calls in a loop body (syntactic, transitive)."""
         out: set[str] = set()
